@@ -14,7 +14,7 @@ from __future__ import annotations
 import ast
 
 from ..cfg import EXIT, header_parts
-from ..flow import Defs, Scope, bool_eval, guard_facts, iterations, unreachable_when
+from ..flow import Defs, Scope, bool_eval, guard_facts, inline_predicates, iterations, unreachable_when
 from ..loader import AnalysisError, dotted, norm, walk_no_nested
 from ..report import Ctx
 from ..selftest import Mutant
@@ -148,6 +148,17 @@ def rule_dag(ctx: Ctx) -> None:  # noqa: C901, PLR0915
             ungated.append(c)
     ctx.tri("5-dag", init, (ungated or [init.node])[0], bool(reg) and not ungated, bool(ungated), "registration only under an active construct_dag",
             "the task graph is written without testing `_TASK_GRAPH is not None`", "registration calls not found", key="gate")
+    state_gated = []
+    for f, c in reg:
+        if c.func.attr != "add_edge":
+            continue
+        cf = ctx.cfg(f)
+        n = cf.node_containing(c)
+        facts = guard_facts(cf, Defs(f), n) if n is not None else []
+        facts = [(norm(inline_predicates(ctx, f, ast.parse(t, mode="eval").body)), pol) for t, pol in facts]
+        state_gated += [t for t, _p in facts if "_evaluated" in t or "_result" in t]
+    ctx.add("5-dag", init, init.node, not state_gated, "an edge is registered for every lazy argument, whatever its evaluation state" if not state_gated else
+            f"edges are only registered under `{state_gated[0][:60]}`: a dependency on a node that was already evaluated is missing from the task graph", key="edges-unconditional")
     edges = [c for _f, c in reg if c.func.attr == "add_edge" and len(c.args) == 2]
     rev = [c for c in edges if norm(c.args[0]) == "self._id" and norm(c.args[1]) != "self._id"]
     fwd = [c for c in edges if norm(c.args[1]) == "self._id" and norm(c.args[0]) != "self._id"]
